@@ -1341,7 +1341,15 @@ def install_ckpt(mon):
 
         best = None
         for idx, rec in enumerate(cands):
-            df = D.diff(rec["digest"], d, ignore=IGNORE_AT_RESUME)
+            ign = IGNORE_AT_RESUME
+            if not is_ins and rec["digest"].get("history") == "None":
+                # the checkpoint was written (by a signal) inside
+                # NestedSampler.initialise, whose last step creates the
+                # history: the resumed run completes the initialisation
+                # before this point
+                ign = ign + ("history", "initialised")
+                mon.classes.add("resumed-inside-initialise")
+            df = D.diff(rec["digest"], d, ignore=ign)
             wdf = weight_diff(rec)
             if best is None or len(df) + len(wdf) < len(best[1]) + len(
                     best[2]):
